@@ -113,9 +113,9 @@ class Const(Sort):
 class Rec(Sort):
     """immutable record / tuple with named components as ONE SMT value (usable as a sequence element);
     python side: a tuple in field order"""
-    def __init__(self, name, **fields):
-        self.name = name
-        self.fields = fields
+    def __init__(self, name_, fields_=None, **fields):
+        self.name = name_
+        self.fields = dict(fields_ or {}, **fields)
 
 
 class MatchS(Sort):
